@@ -182,6 +182,7 @@ type GenOpts struct {
 	TTLs    []int64 // context TTL choices (0 = none)
 	Sleeps  []int64
 	Rewrite bool // overwrite the key buffer right after every call returns (C09)
+	LenBeforeBatch bool // insert a Len right before ExpireAll / DeleteAll (C18: "entries touched")
 	Script  []BOp // when set, the operations to run (Kind, K, V, TTL, Skip, Sleep); Now/Jit are filled in
 }
 
@@ -298,9 +299,19 @@ func RunBackendOps(t *testing.T, rng *rand.Rand, fl string, conf BConf, g GenOpt
 				op.K = k
 				res = b.Delete(ctx, buf)
 			case "expireall":
+				if g.LenBeforeBatch {
+					out.Ops = append(out.Ops, BOp{Kind: "len"})
+					out.Results = append(out.Results, Res{Kind: "len", V: int64(b.Len())})
+				}
+
 				b.ExpireAll(ctx)
 				res = Res{Kind: "unit"}
 			case "deleteall":
+				if g.LenBeforeBatch {
+					out.Ops = append(out.Ops, BOp{Kind: "len"})
+					out.Results = append(out.Results, Res{Kind: "len", V: int64(b.Len())})
+				}
+
 				b.DeleteAll(ctx)
 				res = Res{Kind: "unit"}
 			case "len":
